@@ -4,7 +4,7 @@ from .. import core, gen, designs
 from . import vcdfam, c06, c12
 
 PID = "C10"
-LEVEL = "translation_validation"
+LEVEL = "proof"
 RULE = ("(1) value sequences are fed to fst::SignalWriter (hook; the values as the FST reader delivers them: ASCII characters, "
         "8-byte reals, strings) exhaustively for every ordered pair and triple of state kinds x widths 1..40, and randomly with "
         "redundant values, non-decreasing time indices and upper-case characters; oracle: the de-duplicated sequence in the smallest "
@@ -15,9 +15,14 @@ RULE = ("(1) value sequences are fed to fst::SignalWriter (hook; the values as t
         "locators; variables of all 28 usable FST type codes, six directions, ranges, aliases, enum tables, VHDL type attributes, "
         "reals incl. +-0, strings; 1..n value change blocks, initial values in the frame or as changes, gzip/lz4 hierarchy, zlib "
         "or raw streams, every timescale exponent class) are written as FST files by vlib/filegen.py and loaded; the full listing "
-        "(harness command wfull) must equal the listing computed from the design. The FST container is decoded by the "
-        "dependency fst-reader and is not modelled in Coq. Non-trivial: a sequence whose kinds widen at least once; distinct sequences / files.")
+        "(harness command wfull) must equal the listing computed from the design. (5) model of fst.rs on the dependency's real "
+        "output: every generated and corpus FST file is read with fst-reader directly (hierarchy entries, header, time table, "
+        "callbacks of a random subset of the signals in a random order) and through wellen; the extracted model of read_hierarchy / "
+        "convert_timescale / load_signals / SignalWriter run on the former must print what wellen reports. The FST container is "
+        "decoded by the dependency fst-reader and is not modelled in Coq. Non-trivial: a sequence whose kinds widen at least once; "
+        "distinct sequences / files.")
 ASSUMPTIONS = ["A-fst: the dependency fst-reader 0.8.7 decodes the container correctly and delivers per-signal time-ordered callbacks",
+               "A-utf8: String::from_utf8_lossy (std) is applied to string values before the model sees them",
                "VCD twins were produced by vcd2fst (third party)"]
 TRUSTED_BASE = ["Python oracle (dedup + minimal kinds)", "Python FST writer and expected listing (vlib/filegen.py, vlib/designs.py)", "comparison with the VCD twin (the VCD loader is the subject of C01)"]
 
@@ -66,7 +71,14 @@ def run(res, rng, tier, model_ok, replay=None):
             res.nontrivial.add(b)
     # (4) generated FST files (hierarchy with every scope / variable type, directions, aliases, enum tables, source
     # locators, VHDL type names; several value change blocks, frames, compression variants), full listing vs design
-    designs.run_file_cases(res, designs.fst_cases(rng, tier), "c10f")
+    seed = rng.randrange(1 << 30)
+    designs.run_file_cases(res, designs.fst_cases(rng, tier), "c10f",
+                           with_files=lambda paths: designs.fst_model_tie(res, paths, "c10m", model_ok, seed))
+    # (5) the same tie on the corpus FST files
+    import glob, os
+    corpus = sorted(f for f in glob.glob("/repo/wellen/inputs/**/*.fst", recursive=True)
+                    if os.path.getsize(f) < (400000 if tier == "quick" else 6000000))
+    designs.fst_model_tie(res, corpus, "c10c", model_ok, seed, what="corpus")
     res.samples = [c["line"][:200] for c in cases[:2]] + ["wobs " + pairs[0][1]] + res.samples[-1:]
 
 
